@@ -1,0 +1,70 @@
+//go:build verif
+
+// Machine-checked contracts for this package (comment-only; compiled only with -tags verif,
+// and even then contributes no code).  Read by /verif/govc; see /verif/DESIGN.md.
+
+package policysync
+
+//@ -- ---------------------------------------------------------------- C31: per-workload policy sync streams
+//@ -- (thin) maybeSyncEndpoint sends, in this order: newly needed IP sets, then newly needed policies and profiles,
+//@ -- then the endpoint itself (on the endpoint's own channel), then removals of policies and profiles no longer
+//@ -- needed, and IP set removals last - so the stream never references something not yet sent - and it sends
+//@ -- nothing at all when the endpoint has no update or no joined client.
+//@ ghost c31Sets bool
+//@ ghost c31Pols bool
+//@ ghost c31Profs bool
+//@ ghost c31Ep bool
+//@ ghost c31PolDels bool
+//@ ghost c31ProfDels bool
+//@ ghost c31SetDels bool
+//@ func (*Processor).maybeSyncEndpoint
+//@   property C31
+//@   option safety off
+//@   option stable (*EndpointInfo).output, (*EndpointInfo).endpointUpd
+//@   requires ei != nil && !c31Sets && !c31Pols && !c31Profs && !c31Ep && !c31PolDels && !c31ProfDels && !c31SetDels
+//@   ghost at call getIPSetsSync: check old(ei.output) != nil && old(ei.endpointUpd) != nil
+//@   ghost at call doAdd: check !c31Pols && !c31Profs && !c31Ep ; c31Sets = true
+//@   ghost at call syncAddedPolicies: check c31Sets && !c31Ep && arg1 == ei ; c31Pols = true
+//@   ghost at call syncAddedProfiles: check c31Sets && !c31Ep && arg1 == ei ; c31Profs = true
+//@   ghost at call chansend: check c31Sets && c31Pols && c31Profs && !c31PolDels && !c31ProfDels && !c31SetDels && arg0 == ei.output ; c31Ep = true
+//@   ghost at call syncRemovedPolicies: check c31Ep && arg1 == ei ; c31PolDels = true
+//@   ghost at call syncRemovedProfiles: check c31Ep && arg1 == ei ; c31ProfDels = true
+//@   ghost at call doDel: check c31Ep && c31PolDels && c31ProfDels ; c31SetDels = true
+//@   ensures ei.output == old(ei.output)
+//@   ensures (old(ei.endpointUpd) == nil || old(ei.output) == nil) ==> !c31Sets && !c31Pols && !c31Profs && !c31Ep && !c31PolDels && !c31ProfDels && !c31SetDels
+//@   ensures (old(ei.endpointUpd) != nil && old(ei.output) != nil) ==> c31Sets && c31Pols && c31Profs && c31Ep && c31PolDels && c31ProfDels && c31SetDels
+
+//@ -- a policy / profile is sent to a workload only if that workload has not been sent it yet, on the workload's own
+//@ -- channel, and is recorded as sent
+//@ func (*Processor).syncAddedPolicies$1
+//@   property C31
+//@   option safety off
+//@   option stable (*EndpointInfo).output, (*EndpointInfo).syncedPolicies, map[types.PolicyID]bool, **EndpointInfo
+//@   ghost at call chansend: check !((pId in (*ei).syncedPolicies) && (*ei).syncedPolicies[pId]) && arg0 == (*ei).output
+//@   ensures ((pId in (*ei).syncedPolicies) && (*ei).syncedPolicies[pId]) || old((*ei).syncedPolicies) == nil
+//@ func (*Processor).syncAddedProfiles$1
+//@   property C31
+//@   option safety off
+//@   option stable (*EndpointInfo).output, (*EndpointInfo).syncedProfiles, map[types.ProfileID]bool, **EndpointInfo
+//@   ghost at call chansend: check !((pId in (*ei).syncedProfiles) && (*ei).syncedProfiles[pId]) && arg0 == (*ei).output
+//@   ensures ((pId in (*ei).syncedProfiles) && (*ei).syncedProfiles[pId]) || old((*ei).syncedProfiles) == nil
+
+//@ -- joining resets what the workload has been sent and adopts the new channel; the in-sync marker is sent on
+//@ -- that channel, and only if the datastore has reported in-sync
+//@ func (*Processor).handleJoin
+//@   property C31
+//@   option safety assume
+//@   option callpre off
+//@   option stable (*Processor).receivedInSync, (*EndpointInfo).output
+//@   requires !c31Sets && !c31Pols && !c31Profs && !c31Ep && !c31PolDels && !c31ProfDels && !c31SetDels
+//@   ghost at call chansend: check old(p.receivedInSync) && arg0 == joinReq.C
+//@   ghost at call maybeSyncEndpoint: check old(arg1.output) == joinReq.C && old(arg1.currentJoinUID) == joinReq.JoinMetadata.JoinUID && fresh(old(arg1.syncedPolicies)) && fresh(old(arg1.syncedProfiles)) && fresh(old(arg1.syncedIPSets))
+
+//@ -- leaving (with the matching join id) detaches the channel: nothing can be sent to the workload afterwards
+//@ ghost c31Match bool
+//@ func (*Processor).handleLeave
+//@   property C31
+//@   option safety off
+//@   requires p != nil && !c31Match
+//@   ghost at call chanclose: check old(ei.currentJoinUID) == leaveReq.JoinMetadata.JoinUID && arg0 == old(ei.output) ; c31Match = true
+//@   ghost at call handleLeave$1: check c31Match ==> (ei.output == nil && ei.currentJoinUID == 0) ; check (ei.currentJoinUID != 0 && ei.currentJoinUID == leaveReq.JoinMetadata.JoinUID) ==> c31Match
